@@ -252,6 +252,12 @@ def arr_astype(I, ctx, a, dt):
         return NArr(a.n, lambda i: B.wrap(B.zint(a.elem(i)) % 256), "uint8", "astype")
     if tag == "bool":
         return NArr(a.n, lambda i: B.wrap(B.zbool(a.elem(i))), "bool", "astype")
+    if tag == "str" and a.dtype not in ("str", "object"):
+        # numbers become their text: no longer equal to the numbers they were
+        def text(i):
+            v = a.elem(i)
+            return I.to_str(ctx, v) if isinstance(v, (Sym, int, float)) else v
+        return NArr(a.n, text, "str", "astype-str")
     return NArr(a.n, a.elem, tag or a.dtype, "astype")
 
 
@@ -400,8 +406,15 @@ def install(I):
             return False
         raise Unsupported(f"numpy.can_cast({a}, {b}) depends on the bit widths, which the dtype tags do not carry")
 
-    for _nm in ("str_", "record", "void", "integer", "floating", "number", "bool_", "object_"):
+    for _nm in ("str_", "record", "void", "bool_", "object_"):
         np_tab.setdefault(_nm, Opaque(None, "numpy." + _nm, {"np_kind": _nm}))
+    # abstract scalar kinds as classes: python numbers are not instances; modelled numpy scalars carry attrs["np_scalar"]
+    _kinds = {"number": ("int", "float", "complex"), "integer": ("int",), "floating": ("float",), "complexfloating": ("complex",), "generic": ("int", "float", "complex", "str", "bool")}
+    for _nm, _ok in _kinds.items():
+        c = ClassVal(_nm, None, [I.builtins["object"]], {}, external="numpy." + _nm)
+        c.ns["__instancecheck_model__"] = (lambda ctx, v, _ok=_ok: (isinstance(v, Opaque) and v.attrs.get("np_scalar") in _ok) or
+                                           getattr(v, "np_scalar", None) in _ok)
+        np_tab[_nm] = c
 
     @ext("issubdtype")
     def _issubdtype(ctx, dt, kind):
